@@ -17,7 +17,7 @@ from vf.seq import outcome
 
 PROP = "C12"
 LEVEL = "exploration"
-RULE = ("seeded cases: initial file of 0-10 lines (empty lines, ASCII, multi-byte UTF-8, long lines; no line breaks "
+RULE = ("seeded cases: initial file of 0-10 lines (and a few files of 4096-10000 lines) (empty lines, ASCII, multi-byte UTF-8, long lines; no line breaks "
         "inside; with or without final newline; built index or a caller-supplied subset / permutation of line offsets), variant in the 4 mutable classes (record variants with a pass-through and a JSON record class), "
         "history of 0-40 operations (one in nine histories contains no edit at all): f[i]=x, del f[i], insert, append, extend, pop, remove, reverse, +=, mixed with "
         "reads (len, f[i], slices, iteration, in/index/count) at in- and out-of-range positions, then save() to a "
@@ -74,6 +74,15 @@ def record_classes():
 def gen_case(rng, tier, index):
     n = rng.choice([0, 1, 2, 3, 4, 5, 6, 8, 10])
     lines = [rng.choice(ALPHABET) for _ in range(n)]
+    if index % 400 == 11 or (tier == "thorough" and index % 100 == 11):
+        # thousands of lines: batching / chunking inside save() and the readers gets exercised
+        nbig = rng.choice([4096, 4097, 8192, 8200, 10000])
+        lines = [f"line {i}" for i in range(nbig)]
+        ops = [[rng.choice(["append", "set", "insert", "del", "get"]), rng.randrange(1 << 20), rng.randrange(len(ALPHABET)),
+                rng.randrange(1 << 20)] for _ in range(rng.randint(0, 3))]
+        return {"lines": lines, "final_nl": True, "variant": VARIANTS[(index // 11) % len(VARIANTS)], "ops": ops, "index": "built",
+                "index_seed": 0, "ending": rng.choice(["\n", "\n", "\r\n", "<>"]), "save_to": rng.choice(["path", "stringio"]),
+                "big": True}
     if index % 13 == 0 and n:
         lines[rng.randrange(n)] = rng.choice(["y" * 8192, "ž" * 4097, "w" * 20000])
     ops = []
@@ -113,7 +122,7 @@ def sha(path):
 
 
 def run_case(case, res):
-    with instr.budget(5_000_000):
+    with instr.budget(5_000_000 if not case.get("big") else 400_000_000):
         try:
             _run(case, res)
         except instr.StepBudgetExceeded:
